@@ -7,10 +7,10 @@ def ob(id, entry, mode, cases, expect, bounds, **kw):
              assumes=['real mode: finite inputs, exact arithmetic (rounding outside the claim)', 'kinds 1..5, n<4, k<=2'], outside=['computation of the section direction vector in parse_entries'])
     d.update(kw); return d
 OBLIGATIONS = [
-    ob('C09.map', 'h_c09_map', 'real', [(0, 1), (0, 2), (1, 1), (1, 2)],
+    ob('C09.map', 'h_c09_map', 'real', [(0, 1, 0), (0, 2, 0), (1, 1, 0), (1, 2, 0)] + [(0, 3, k) for k in range(1, 6)],
        ['one 3D query on the same world', 'depth forwarded unchanged', 'property triples forwarded in order', 'Cartesian: distance x along the section at height z',
         'spherical: angle atan2(z,x) along the section at radius sqrt(x^2+z^2)', 'velocity: in-section horizontal component', 'velocity: vertical component', 'velocity: third entry is zero',
         'non-velocity entries are the 3D answer unchanged', '2D answer has no extra entries', 'end'],
-       'request lists L<=2 (quick) / L<=3 (thorough), grains count <=2, Cartesian and spherical', cases_thorough=[(0, 1), (0, 2), (0, 3), (1, 1), (1, 2), (1, 3)]),
+       'request lists L<=3 (spherical: L<=2 in the quick tier), grains count <=2, Cartesian and spherical', cases_thorough=[(0, 1, 0), (0, 2, 0), (1, 1, 0), (1, 2, 0)] + [(c, 3, k) for c in (0, 1) for k in range(1, 6)]),
     ob('C09.refuse', 'h_c09_refuse', 'fp', [()], ['2D query without cross section throws and never reaches the 3D query', 'end'], 'all points'),
 ]
